@@ -45,6 +45,7 @@ def run(ctx):
     # map / parallel results (BatchResult with per-branch errors) are replayed from the context's record
     from harness import comp_executor
     comp_executor.run_prop(ctx, "C02", n_quick=100, n_thorough=2500)
+    comp_executor.run_templates(ctx, "C02", [comp_executor.gen_error_replay], 40, 1000)
 
 
 def search(ctx):
